@@ -125,6 +125,9 @@ def gen_caption(rng, start, span_layouts=False):
                 style = rng.choice([{"italics": True}, {"bold": True}, {"underline": True}, {"italics": True, "bold": True},
                                     {"italics": True, "underline": True, "bold": True}])
                 span_words = rng.choice([0, 1, 2])
+                if rng.random() < 0.25:
+                    # a span that also refers to a style class (the class key first, as the readers build it)
+                    style = dict({"class": "quote"}, **style)
                 lay = rng.choice(lays) if (span_layouts and rng.random() < 0.6) else None
                 nodes.append(ST(True, dict(style), lay))
                 for j in range(span_words):
@@ -190,7 +193,7 @@ def bounded(ctx, b):
     n = 120 if not ctx.thorough else 2500
     for i in range(n):
         caps = [gen_caption(rng, (j + 1) * 2 * 10 ** 6) for j in range(rng.choice([1, 2]))]
-        cs = CaptionSet({"en-US": CaptionList(caps)})
+        cs = CaptionSet({"en-US": CaptionList(caps)}, styles={"quote": {"color": "red", "font-family": "Arial"}})
         orig = [flags_of_nodes(c_.nodes) for c_ in caps]
 
         def only(fl, keep):
@@ -214,7 +217,7 @@ def bounded(ctx, b):
             # the other DFXP writers and options, on captions whose spans may carry a layout of their own
             from pycaption.dfxp.extras import SinglePositioningDFXPWriter, LegacyDFXPWriter
             caps_l = [gen_caption(rng, (j + 1) * 2 * 10 ** 6, span_layouts=True) for j in range(rng.choice([1, 2]))]
-            cs_l = CaptionSet({"en-US": CaptionList(caps_l)})
+            cs_l = CaptionSet({"en-US": CaptionList(caps_l)}, styles={"quote": {"color": "red", "font-family": "Arial"}})
             orig_l = [flags_of_nodes(c_.nodes) for c_ in caps_l]
             for label, mk in (("dfxp(inline positioning)->dfxp", lambda: DFXPWriter(write_inline_positioning=True)),
                               ("dfxp(single positioning)->dfxp", lambda: SinglePositioningDFXPWriter()),
